@@ -1,30 +1,10 @@
 """C03 - events are acked once, after their consequences are issued; nothing leaks (DESIGN.md C03)."""
-import time
 from . import common
 from harness import corpus
-
 PROP = "C03"
 MONITORS = ("M-carry", "M-drain")
-
 def scenarios(tier):
-    scs = corpus.handler_coverage_corpus() + corpus.poison_corpus()
-    return scs
-
+    return (corpus.handler_coverage_corpus() + corpus.poison_corpus() + corpus.seq_family(tier) + corpus.fanout_ok_family(tier)
+            + corpus.fanout_fail_family(tier))
 def run(tier, seed):
-    cr = common.CheckResult(PROP)
-    scs = scenarios(tier)
-    limits = {"max_states": 20000 if tier == "quick" else 200000, "max_depth": 300}
-    jobs = [(sc, None, limits) for sc in scs]
-    outs = common.explore_many("checks.monsets", "base", jobs, seed)
-    tot, samples = common.collect(cr, outs, {s["name"]: s for s in scs}, lambda v: v["monitor"] in MONITORS, "base")
-    cr.coverage = {
-        "states": tot["states"], "transitions": tot["transitions"],
-        "traces_validated_against_impl": tot["executions"], "samples": samples,
-        "scenarios": tot["scenarios"], "closed_scenarios": tot["closed"], "bounded_scenarios": tot["bounded"],
-        "capped": tot["capped"], "max_depth": tot["max_depth"], "multi_outcome_scenarios": tot["multi_outcome_scenarios"],
-        "exhaustive": not tot["capped"],
-        "explanation": "every interleaving of deliveries, worker replies and timers of each scenario (closed, "
-                       "fingerprint-deduplicated); M-carry evaluated after every basic_ack, M-drain at quiescence",
-    }
-    cr.assumptions = list(common.ASSUME_SIM)
-    return cr
+    return common.engine_check(PROP, scenarios(tier), MONITORS, tier, seed)
